@@ -11,7 +11,10 @@ for v in vs:
     k=(cell,v['symptom'])
     if flt and flt not in cell+v['symptom']: continue
     g.setdefault(k,[]).append(v)
-for (cell,sym),l in g.items():
+import os
+LIM=int(os.environ.get('LIM','25'))
+print(f"{len(vs)} violations in {len(g)} groups (showing {LIM})")
+for (cell,sym),l in list(g.items())[:LIM]:
     cases=sorted({v['cell'].split('#')[1] if '#' in v['cell'] else '' for v in l})
     print(f"{cell} :: {sym}  x{len(l)}  cases={cases[:8]}")
-    print("     ",l[0].get('detail','')[:420].replace('\n',' '))
+    print("     ",l[0].get('detail','')[:260].replace('\n',' '))
